@@ -267,6 +267,28 @@ static std::string obs(const upa::url& u) {
 }
 
 // full state of a slot: getters, invariant, fresh-parse comparison, linked params
+// the hidden representation (C05), read from the private members: the 11 end offsets, the
+// flags word and the segment counter, as " repr=<e0>,...,<e10>;<flags>;<segs>".
+// Exactly two things are normalised, nothing else:
+//  (1) a TRAILING run of unset offsets (part_end_[i] == 0 for every i >= k, k >= 1) is printed
+//      as the last set offset before it: the property text gives trailing unset parts two legal
+//      encodings, "0 or repeat the previous offset" (a zero that is followed by a non-zero
+//      offset is NOT trailing and is printed as 0);
+//  (2) the VALID bit is dropped from the flags word (the line starts with valid=1 already).
+// The model side (Impl/Repr.v, repr_of) always uses the "repeat" encoding.
+static std::string repr_str(const upa::url& u) {
+    using upa::url;
+    std::size_t e[url::PART_COUNT];
+    int last_set = 0;
+    for (int i = 0; i < url::PART_COUNT; ++i) { e[i] = u.part_end_[i]; if (e[i] != 0) last_set = i; }
+    for (int i = last_set + 1; i < url::PART_COUNT; ++i) e[i] = e[last_set];
+    std::ostringstream o;
+    for (int i = 0; i < url::PART_COUNT; ++i) o << (i ? "," : "") << e[i];
+    o << ";" << (u.flags_ & ~static_cast<unsigned>(url::VALID_FLAG)) << ";" << u.path_segment_count_;
+    return o.str();
+}
+
+// full state of a slot: getters, invariant, fresh-parse comparison, linked params
 static std::string state(int i) {
     upa::url& u = U(i);
     std::ostringstream o;
@@ -297,7 +319,7 @@ static std::string state(int i) {
         catch (const std::exception& e) { o << " getters=EXC other:" << e.what(); }
         return o.str();
     }
-    o << " " << obs(u) << " inv=" << check_inv(u);
+    o << " " << obs(u) << " inv=" << check_inv(u) << " repr=" << repr_str(u);
     // fresh parse of the href
     {
         upa::url f;
